@@ -5,6 +5,7 @@ import (
 	"encoding/json"
 	"fmt"
 	"math/rand"
+	"sort"
 	"strconv"
 	"strings"
 
@@ -107,15 +108,11 @@ func (g *rgen) randomPath(m map[string]interface{}, maxLen int, allowIdx bool) [
 		}
 		mm, ok := cur.(map[string]interface{})
 		name := g.keys[g.r.Intn(len(g.keys))]
-		if ok && len(mm) > 0 && g.r.Intn(8) != 0 {
-			i := g.r.Intn(len(mm))
-			for k := range mm {
-				if i == 0 {
-					name = k
-					break
-				}
-				i--
-			}
+		if !ok && len(ks) > 0 && g.r.Intn(4) != 0 {
+			break // nothing below: usually stop here
+		}
+		if ok && len(mm) > 0 && g.r.Intn(12) != 0 {
+			name = sortedKeys(mm)[g.r.Intn(len(mm))]
 		}
 		k := pkey{name, -1}
 		nxt := interface{}(nil)
@@ -125,8 +122,8 @@ func (g *rgen) randomPath(m map[string]interface{}, maxLen int, allowIdx bool) [
 		if g.r.Intn(5) == 0 {
 			k.Name = "*"
 		} else if allowIdx && g.r.Intn(4) == 0 {
-			k.Idx = g.r.Intn(3)
-			if l, isl := nxt.([]interface{}); isl && len(l) > 0 && g.r.Intn(2) == 0 {
+			k.Idx = g.r.Intn(2)
+			if l, isl := nxt.([]interface{}); isl && len(l) > 0 && g.r.Intn(4) != 0 {
 				k.Idx = g.r.Intn(len(l) + 1)
 			}
 		}
@@ -157,7 +154,7 @@ func names(ks []pkey) []string {
 
 func (g *rgen) conds() []cond {
 	n := 0
-	switch g.r.Intn(6) {
+	switch g.r.Intn(10) {
 	case 0, 1:
 		n = 1
 	case 2:
@@ -394,14 +391,7 @@ func (g *rgen) plainMapPath(m map[string]interface{}, maxLen int) []string {
 		mm, ok := cur.(map[string]interface{})
 		name := g.keys[g.r.Intn(len(g.keys))]
 		if ok && len(mm) > 0 && g.r.Intn(6) != 0 {
-			i := g.r.Intn(len(mm))
-			for k := range mm {
-				if i == 0 {
-					name = k
-					break
-				}
-				i--
-			}
+			name = sortedKeys(mm)[g.r.Intn(len(mm))]
 		}
 		ks = append(ks, name)
 		if ok {
@@ -410,6 +400,16 @@ func (g *rgen) plainMapPath(m map[string]interface{}, maxLen int) []string {
 			cur = nil
 		}
 	}
+	return ks
+}
+
+// sortedKeys makes the recorder's choices a function of the seed only
+func sortedKeys(m map[string]interface{}) []string {
+	ks := make([]string, 0, len(m))
+	for k := range m {
+		ks = append(ks, k)
+	}
+	sort.Strings(ks)
 	return ks
 }
 
@@ -424,3 +424,95 @@ func init() {
 	register("path", &family{record: recordPath, serial: true,
 		rule: "one event = one call (ValuesForPath/ValuesForKey/key-search consistency/LeafNodes/UpdateValuesForPath/SetValueForPath/Remove/RenameKey/NewMap) on a live random Map (depth <= 5, lists and maps up to 37 wide), sessions of 6-15 chained calls; non-trivial = non-empty result or successful mutation"})
 }
+
+// ---------------------------------------------------------------------------
+// isolation re-check of a rejected trace event: the replay case is the session (events
+// from the last "reset" up to the rejected one); it is re-executed on the real code and
+// the candidate counts as reproduced when the code yields the logged observations again.
+// ---------------------------------------------------------------------------
+type pathEvent struct {
+	Op    string          `json:"op"`
+	M     *tagged.TV      `json:"m"`
+	Keys  []pkey          `json:"keys"`
+	Conds []cond          `json:"conds"`
+	W     string          `json:"w"`
+	R     json.RawMessage `json:"r"`
+	Key   string          `json:"key"`
+	Val   *tagged.TV      `json:"val"`
+	Path  []string        `json:"path"`
+	C     int             `json:"c"`
+	Post  *tagged.TV      `json:"post"`
+	Out   string          `json:"out"`
+	New   string          `json:"new"`
+	Na    bool            `json:"na"`
+	Dot   bool            `json:"dot"`
+	Pairs []struct {
+		Old []pkey   `json:"old"`
+		New []string `json:"new"`
+	} `json:"pairs"`
+	Unchanged bool `json:"unchanged"`
+}
+
+func replayPathSession(line []byte, a *Acc) {
+	var c struct {
+		Session []pathEvent `json:"session"`
+	}
+	if err := json.Unmarshal(line, &c); err != nil {
+		panic(err)
+	}
+	var mv mxj.Map
+	same := true
+	note := ""
+	for i, e := range c.Session {
+		last := i == len(c.Session)-1
+		switch e.Op {
+		case "reset":
+			mv = e.M.ToMap()
+		case "vfp", "vfk":
+			var vals []interface{}
+			if e.Op == "vfp" {
+				vals, _ = mv.ValuesForPath(pathString(e.Keys), condStrs(e.Conds, ":")...)
+			} else {
+				vals, _ = mv.ValuesForKey(e.Key, condStrs(e.Conds, ":")...)
+			}
+			var logged []*tagged.TV
+			json.Unmarshal(e.R, &logged)
+			if last && !tagged.SameBag(tagged.CanonList(vals), tagged.NormList(logged)) {
+				same = false
+			}
+			note = fmt.Sprintf("%s(%s %s %v) = %v", e.Op, pathString(e.Keys), e.Key, condStrs(e.Conds, ":"), tagged.CanonList(vals))
+		case "ksearch", "leaf", "newmap":
+			// observation-only events: re-execution is the same deterministic call
+			note = e.Op
+		case "upd":
+			n, _ := mv.UpdateValuesForPath(map[string]interface{}{e.Key: e.Val.ToGo()}, strings.Join(e.Path, "."), condStrs(e.Conds, ":")...)
+			if tagged.CanonGo(mv) != e.Post.Norm() || n != e.C {
+				same = false
+			}
+			note = fmt.Sprintf("UpdateValuesForPath({%s:%s}, %q, %v) = %d", e.Key, e.Val.Norm(), strings.Join(e.Path, "."), condStrs(e.Conds, ":"), n)
+		case "set":
+			guard(func() { mv.SetValueForPath(e.Val.ToGo(), strings.Join(e.Path, ".")) })
+			if e.Out != "panic" && tagged.CanonGo(mv) != e.Post.Norm() {
+				same = false
+			}
+			note = "SetValueForPath " + strings.Join(e.Path, ".")
+		case "remove":
+			mv.Remove(strings.Join(e.Path, "."))
+			if tagged.CanonGo(mv) != e.Post.Norm() {
+				same = false
+			}
+			note = "Remove " + strings.Join(e.Path, ".")
+		case "rename":
+			mv.RenameKey(strings.Join(e.Path, "."), e.New)
+			if tagged.CanonGo(mv) != e.Post.Norm() {
+				same = false
+			}
+			note = "RenameKey " + strings.Join(e.Path, ".") + " -> " + e.New
+		}
+	}
+	if same {
+		a.Mis("trace:path:reproduced", "the real code reproduces the logged observations the specification rejects; last call: "+note, c)
+	}
+}
+
+func init() { families["path"].replay = replayPathSession }
